@@ -517,6 +517,7 @@ func runC12(c *core.Ctx, o Options) {
 	}
 	// ---- (g) type table
 	checkTypeTable(c, "g", gpkg.Types)
+	c.RuleMin = map[string]int{"a": 15, "b": 3, "c": 3, "c′": 3, "c″": 3, "d": 7, "e": 1, "f": 3, "g": 6, "h": 121}
 	c.MinObl = 150
 }
 
